@@ -25,6 +25,8 @@ CANARIES = [
     {'name': 'allow-header-dropped', 'file': 'clastic/errors.py',
      'old': "            self.headers['Allow'] = ', '.join(sorted(self.allowed_methods))", 'new': "            pass"},
 ]
+# clauses carrying this property's statement; the rest of the shared dispatch proof is support
+OWN = [r'^(?!application\.Application\.dispatch/(ensures\[0\]|ensures\[4\]|raises))']
 QUICK_CANARIES = 2
 
 
